@@ -11,6 +11,8 @@ for d in seeded/*/; do
   id=$(basename "$d")
   prop=${id%%-*}
   case "$prop" in C[0-9][0-9]) ;; *) prop=$(python3 -c "import json;print(json.load(open('$d/meta.json'))['breaks_property'])");; esac
+  other=$(python3 -c "import json;print(json.load(open('$d/meta.json')).get('check_with',''))" 2>/dev/null)
+  [ -n "$other" ] && prop="$other"
   patch="$d/patch.diff"; [ -f "$d/patch_ported.diff" ] && patch="$d/patch_ported.diff"
   [ -f "$patch" ] || continue
   tier="${1:-quick}"
